@@ -75,7 +75,12 @@ func (w *vWorld) symPods(prefix string, g, P int, placement int, daemonChoice bo
 		mem := int64(1 << 20)
 		if w.symPodMem {
 			// memory-bound workloads: memory symbolic up to three nodes' worth
-			mem = verifInt(js+".mem", 0, 3*w.memPerNode)
+			if w.memUnit > 1 {
+				// whole units (keeps the oracle's integer arithmetic exact and inside int64)
+				mem = verifInt(js+".memUnits", 0, 3*w.memPerNode/w.memUnit) * w.memUnit
+			} else {
+				mem = verifInt(js+".mem", 0, 3*w.memPerNode)
+			}
 		}
 		w.addPod(g, node, daemon, cpu, mem, pending)
 	}
